@@ -761,10 +761,12 @@ theorem consumeAtom_stepK (fuel : Nat) (ih : DescK fuel) (st : PState) (result :
       have l1 := consume_loopCount hc
       split at h
       · cases h
-      · cases h
-        exact atomK_leaf hk (classSetNode_lf _ _ _) (by
-          show (tryConsume 94 st1).2.loopCount = st.loopCount
-          rw [tryConsume_loopCount]; exact l1)
+      · split at h
+        · cases h
+        · cases h
+          exact atomK_leaf hk (classSetNode_lf _ _ _) (by
+            show (tryConsume 94 st1).2.loopCount = st.loopCount
+            rw [tryConsume_loopCount]; exact l1)
   rw [if_neg hc6] at h
   by_cases hc7 : (c == 91) = true
   · rw [if_pos hc7] at h
